@@ -23,3 +23,5 @@ def run(prog, rep):
     r_mbt.run(prog, rep, only=r'^nix::DataArray::(append|create)\w*Dimension', floor=6)
     from ..rules import r_safe
     r_safe.run_colidx(prog, rep)
+    from ..rules import r_io as _rio3
+    _rio3.run_memtype(prog, rep)
